@@ -27,8 +27,11 @@ def build(folder):
     cont = Container(folder)
     cont.init_container(pack_size_target=80, loose_prefix_len=2)
     names = list(table)
-    cont.add_objects_to_pack([table[n] for n in names[0:3]], compress=False)
-    cont.add_objects_to_pack([table[n] for n in names[3:6]], compress=True)
+    # the empty object (k4) is stored uncompressed (a zero-length entry), a one-byte object compressed
+    first = [n for n in names[0:6] if n in ('k1', 'k2', 'k4')]
+    second = [n for n in names[0:6] if n not in first]
+    cont.add_objects_to_pack([table[n] for n in first], compress=False)
+    cont.add_objects_to_pack([table[n] for n in second], compress=True)
     for n in names[6:]:
         cont.add_object(table[n])
     cont.add_object(table[names[0]])  # both loose and packed
@@ -123,6 +126,10 @@ def damages(base, table, thorough, rng):
             for delta in deltas:
                 yield ({'kind': f'row-{field}', 'target': row['hashkey'][:8], 'pos': 0 if delta == 'flip' else delta, 'bit': 0},
                        ('row', row['id'], field, delta))
+        # boundary values: a field set to zero / to the value of a neighbouring entry
+        for field in ('length', 'size', 'offset'):
+            if row[field] != 0:
+                yield {'kind': f'row-{field}-zero', 'target': row['hashkey'][:8], 'pos': 0, 'bit': 0}, ('row', row['id'], field, -row[field])
 
 
 def apply(folder, action):
